@@ -134,15 +134,17 @@ class C10(PropertyCheck):
             pj.append({'id': f'b{len(pj)}', 'src': wrap(e), 'calls': ['c0'], 'limits': LIMITS})
             pmeta.append(('big' if 'repeat()' not in e else 'any', 'extra', e, ''))
         numeric = ['multinom([40000, 40000])', 'multinom([1000000000000, 1000000000000])', 'binom(1000000, 500000)', 'binom(10 ** 12, 5 * 10 ** 11)', 'digits(10 ** 3000, 2).len()',
-                   'digits(5, 1)', '(10 ** 100000).to_str().len()', '2 ** (2 ** 40)', 'factorial(100000)', 'range(10 ** 18).len()', 'range(10 ** 18).to_array().len()',
+                   'digits(5, 1)', 'digits(0 - 255, 16).len()', 'digits(0 - 1).len()', 'digits(0 - 10 ** 50, 7).len()', '(10 ** 100000).to_str().len()', '2 ** (2 ** 40)', 'factorial(100000)', 'range(10 ** 18).len()', 'range(10 ** 18).to_array().len()',
                    '"ab".repeat(10 ** 12).len()' if False else '[1].repeat(10 ** 12).len()', 'range(10 ** 12).sum()', 'range(10 ** 12).map(partial(add{int,int}, 1)).sum()', 'count().to_str()']
         # an endless tail-recursive loop: only the recursion limit or the time limit can end it
         for lim_ in ({'time_ms': 300, 'ud_calls': 100000}, {'time_ms': 300}, {'recursion': 5000, 'ud_calls': 100000}, {'time_ms': 300, 'recursion': 10 ** 9, 'size': 1 << 24}):
             pj.append({'id': f'b{len(pj)}', 'src': 'fn spin(n: int, a: int) -> int { if(n == 1, a, spin(n, a + 1)) }\nfn c0() -> str { to_str(spin(0, 0)) }', 'calls': ['c0'], 'limits': lim_})
             pmeta.append(('big', 'tail-loop', 'spin', ''))
+        # requests whose answer is tiny must come back as a value: a loop that only the size limit stops has not done bounded work
+        small_numeric = {'digits(0 - 255, 16).len()', 'digits(0 - 1).len()', 'digits(0 - 10 ** 50, 7).len()'}
         for e in numeric:
             pj.append({'id': f'b{len(pj)}', 'src': wrap(e), 'calls': ['c0'], 'limits': LIMITS})
-            pmeta.append(('numeric', 'numeric', e, ''))
+            pmeta.append(('small' if e in small_numeric else 'numeric', 'numeric', e, ''))
         t0 = time.time()
         pres = core.run_harness(ctx['binary'], pj, os.path.join(workdir, 'hb'), timeout=90, single_timeout=10)
         kinds = {}
